@@ -1,2 +1,193 @@
+"""Toy iterative-ptychography problems on the REAL library (used by C09, C05, C02).
+
+build_toy() simulates a tiny 4D-STEM dataset with an independent numpy forward model and
+builds a preprocessed quantem Ptychography object on it (recipe recorded in DESIGN/§5)."""
+from __future__ import annotations
+
+import numpy as np
+
+
+def simulate(seed=0, scan=(4, 4), roi=(8, 8), step=2.0, sampling=0.5, energy=80e3, semiangle=20.0,
+             defocus=50.0, obj_kind="phase"):
+    """independent numpy simulation: returns (intensities fftshifted [sy,sx,ky,kx], probe, obj)"""
+    rng = np.random.default_rng(seed)
+    sy, sx = scan
+    ry, rx = roi
+    # electron wavelength (A)
+    m, e, c, h = 9.109383e-31, 1.602177e-19, 299792458.0, 6.62607e-34
+    lam = h / np.sqrt(2 * m * e * energy) / np.sqrt(1 + e * energy / 2 / m / c ** 2) * 1e10
+    ky = np.fft.fftfreq(ry, sampling)
+    kx = np.fft.fftfreq(rx, sampling)
+    k = np.sqrt(ky[:, None] ** 2 + kx[None, :] ** 2)
+    alpha = k * lam
+    aperture = (alpha < semiangle * 1e-3).astype(float)
+    chi = 2 * np.pi / lam * (0.5 * alpha ** 2 * (-defocus))
+    probe_k = aperture * np.exp(-1j * chi)
+    probe = np.fft.ifft2(probe_k)
+    probe /= np.sqrt(np.sum(np.abs(probe) ** 2))
+    px = int(round(step / sampling))
+    oy = sy * px + ry
+    ox = sx * px + rx
+    ph = rng.normal(size=(oy, ox))
+    # smooth a little
+    f = np.fft.fft2(ph)
+    fy = np.fft.fftfreq(oy)[:, None]
+    fx = np.fft.fftfreq(ox)[None, :]
+    ph = np.real(np.fft.ifft2(f * np.exp(-(fy ** 2 + fx ** 2) * 30.0)))
+    ph = 0.6 * ph / np.abs(ph).max()
+    obj = np.exp(1j * ph)
+    data = np.zeros((sy, sx, ry, rx))
+    for i in range(sy):
+        for j in range(sx):
+            r0, c0 = i * px, j * px
+            patch = obj[r0:r0 + ry, c0:c0 + rx]
+            # probe is corner-centred: place its centre at the patch centre
+            pr = np.roll(probe, (ry // 2, rx // 2), axis=(0, 1))
+            ew = patch * pr
+            data[i, j] = np.fft.fftshift(np.abs(np.fft.fft2(ew, norm="ortho")) ** 2)
+    data *= 1000.0
+    return data, probe, obj, lam
+
+
+def build_toy(seed=0, scan=(4, 4), roi=(8, 8), step=2.0, sampling=0.5, energy=80e3, semiangle=20.0,
+              defocus=50.0, num_probes=1, obj_type="complex", num_slices=1, rng_seed=42, val_ratio=0.0):
+    import torch  # noqa
+    from quantem.core.datastructures import Dataset4dstem
+    from quantem.diffractive_imaging.dataset_models import PtychographyDatasetRaster
+    from quantem.diffractive_imaging.object_models import ObjectPixelated
+    from quantem.diffractive_imaging.probe_models import ProbePixelated
+    from quantem.diffractive_imaging.detector_models import DetectorPixelated
+    from quantem.diffractive_imaging.ptychography import Ptychography
+
+    data, probe, obj, lam = simulate(seed, scan, roi, step, sampling, energy, semiangle, defocus)
+    rs_y = 1.0 / (roi[0] * sampling)
+    rs_x = 1.0 / (roi[1] * sampling)
+    d = Dataset4dstem.from_array(
+        data.astype(np.float32), sampling=(step, step, rs_y, rs_x), units=("A", "A", "A^-1", "A^-1"))
+    pd = PtychographyDatasetRaster.from_dataset4dstem(d, verbose=0)
+    pd.preprocess(com_fit_function="no_shift", plot_rotation=False, plot_com=False, probe_energy=energy,
+                  force_com_rotation=0, force_com_transpose=False)
+    om = ObjectPixelated.from_uniform(num_slices=num_slices, slice_thicknesses=None if num_slices == 1 else 2.0,
+                                      obj_type=obj_type)
+    pm = ProbePixelated.from_params(
+        num_probes=num_probes,
+        probe_params={"energy": energy, "defocus": defocus, "semiangle_cutoff": semiangle},
+    )
+    det = DetectorPixelated()
+    pt = Ptychography.from_models(dset=pd, obj_model=om, probe_model=pm, detector_model=det, rng=rng_seed,
+                                  verbose=0)
+    pt.val_ratio = val_ratio
+    pt.preprocess(obj_padding_px=(0, 0))
+    return pt
+
+
+
+OPT = {"object": {"type": "adam", "lr": 1e-2}, "probe": {"type": "adam", "lr": 1e-3}}
+NO_ORTHO = {"probe": {"orthogonalize_probe": False}}
+
+
+def _rel(a, b):
+    a = np.asarray(a, dtype=np.float64)
+    b = np.asarray(b, dtype=np.float64)
+    d = np.abs(a - b).max() if a.size else 0.0
+    return float(d / max(1e-30, np.abs(b).max() if b.size else 1.0))
+
+
+def grads_per_batch(pt, batch_size, loss_type):
+    """one epoch at FIXED parameters: the optimiser step is replaced by a recorder
+    (instance-level monkey-patch), so iter_losses[-1] is the mean of the per-batch losses and
+    the recorded gradients are the per-batch gradients at the same parameters"""
+    rec = []
+
+    def recorder():
+        g_obj = pt.obj_model._obj.grad
+        g_pr = getattr(pt.probe_model, "_probe", None)
+        g_pr = None if g_pr is None or g_pr.grad is None else g_pr.grad
+        rec.append((None if g_obj is None else g_obj.detach().clone().numpy(),
+                    None if g_pr is None else g_pr.detach().clone().numpy()))
+
+    pt.step_optimizers = recorder
+    try:
+        pt.reconstruct(num_iters=1, reset=True, optimizer_params={"object": {"type": "sgd", "lr": 1e-3},
+                                                                 "probe": {"type": "sgd", "lr": 1e-3}},
+                       batch_size=batch_size, constraints=NO_ORTHO, loss_type=loss_type)
+    finally:
+        del pt.step_optimizers
+    loss = float(pt._iter_losses[-1])
+    gobj = np.mean([r[0] for r in rec], axis=0) if rec and rec[0][0] is not None else None
+    gpr = np.mean([r[1] for r in rec], axis=0) if rec and rec[0][1] is not None else None
+    return loss, gobj, gpr, len(rec)
+
+
 def c09_recon_checks(ctx):
-    return []
+    """returns [(key, what, replay)] violations; updates ctx coverage"""
+    out = []
+    r = ctx.rng
+    seed = r.randrange(1, 1 << 20)
+    scan = r.choice([(4, 4), (3, 4), (2, 6)]) if ctx.quick else r.choice([(4, 4), (3, 4), (4, 6), (2, 6), (5, 3)])
+    n = scan[0] * scan[1]
+    pt = build_toy(seed=seed % 97, scan=scan, rng_seed=seed)
+    divisors = [d for d in range(1, n + 1) if n % d == 0]
+    loss_types = ["l2_amplitude", "l1_intensity"] if ctx.quick else ["l2_amplitude", "l1_amplitude", "l2_intensity", "l1_intensity"]
+    for lt in loss_types:
+        full = grads_per_batch(pt, n, lt)
+        for b in divisors[:-1]:
+            loss, gobj, gpr, nb = grads_per_batch(pt, b, lt)
+            ctx.count(("toy-batchmean", scan, lt, b), nontrivial=nb > 1)
+            ctx.dist("toy/batch_mean/%s" % lt)
+            dl = abs(loss - full[0]) / max(1e-30, abs(full[0]))
+            if nb != n // b:
+                out.append(("toy-batch-count", "epoch with batch size %d over %d patterns ran %d optimiser steps" % (b, n, nb),
+                            {"kind": "toy", "scan": scan, "batch": b, "loss_type": lt}))
+            if dl > 2e-4:
+                out.append(("toy-batch-mean-loss",
+                            "mean of per-batch losses %.9g != full-batch loss %.9g (batch size %d | %d patterns, %s)" % (
+                                loss, full[0], b, n, lt),
+                            {"kind": "toy", "scan": scan, "batch": b, "loss_type": lt, "seed": seed}))
+            for nm, g, gf in (("object", gobj, full[1]), ("probe", gpr, full[2])):
+                if g is None or gf is None:
+                    continue
+                if _rel(g, gf) > 2e-3:
+                    out.append(("toy-batch-mean-grad",
+                                "mean of per-batch %s gradients differs from the full-batch gradient by rel %.3g "
+                                "(batch size %d | %d patterns, %s)" % (nm, _rel(g, gf), b, n, lt),
+                                {"kind": "toy", "scan": scan, "batch": b, "loss_type": lt, "seed": seed}))
+    # seeded determinism and reset, with shuffled mini-batches and a validation split
+    b = r.choice([d for d in divisors if 1 < d < n] or [1])
+    val_ratio = r.choice([0.0, 0.25])
+    kw = dict(optimizer_params=OPT, batch_size=b + 1, constraints=NO_ORTHO)   # non-dividing batch size
+
+    def fresh():
+        p2 = build_toy(seed=seed % 97, scan=scan, rng_seed=seed, val_ratio=val_ratio)
+        return p2
+
+    A = fresh()
+    A.reconstruct(num_iters=3, **kw)
+    la = [float(x) for x in A._iter_losses]
+    B = fresh()
+    B.reconstruct(num_iters=3, **kw)
+    lb = [float(x) for x in B._iter_losses]
+    ctx.count(("toy-determinism", scan, b, val_ratio), nontrivial=True)
+    if _rel(la, lb) > 1e-6:
+        out.append(("toy-seed-determinism", "two runs from the same seed give different loss histories %s vs %s" % (la, lb),
+                    {"kind": "toy", "scan": scan, "batch": b + 1, "seed": seed, "val_ratio": val_ratio}))
+    # run some iterations, then reset and run again
+    B.reconstruct(num_iters=2, **{**kw, "optimizer_params": None})
+    B.reconstruct(num_iters=3, reset=True, **kw)
+    lc = [float(x) for x in B._iter_losses]
+    ctx.count(("toy-reset", scan, b, val_ratio), nontrivial=True)
+    if len(lc) != 3 or _rel(la, lc) > 1e-6:
+        out.append(("toy-reset-determinism", "run after reset gives %s, fresh run from the same seed gave %s" % (lc, la),
+                    {"kind": "toy", "scan": scan, "batch": b + 1, "seed": seed, "val_ratio": val_ratio}))
+    # reset restores the initial state the model's `reset` assumes: rng re-seeded, histories empty
+    B.reset_recon()
+    st = B.rng.bit_generator.state
+    ref = np.random.default_rng(seed).bit_generator.state
+    fields_ok = (st == ref and len(B._iter_losses) == 0 and len(B._iter_val_losses) == 0 and len(B._iter_lrs) == 0)
+    ctx.count(("toy-reset-fields", scan), nontrivial=True)
+    ctx.cov["traces_validated_against_impl"] += 1
+    if not fields_ok:
+        out.append(("toy-reset-fields", "reset_recon does not restore rng state / empty histories",
+                    {"kind": "toy", "scan": scan, "seed": seed}))
+    ctx.sample({"kind": "toy", "scan": list(scan), "divisors": divisors, "loss_fresh": la, "loss_after_reset": lc})
+    return out
